@@ -1641,3 +1641,13 @@ mut("c17-empty-subset-no-reply", "C17", "src/protocol/vars.rs",
         // Reserve space for the header in out, which may already contain data
         let start = out.len();""",
     "R17.5/write_response/every-path-one-record", "a query naming only unknown variables gets no GetValuesResult at all (seed C17-j)")
+
+# ---- sweep a (code moved into new private submodules) ------------------------------------------------------------------------------------
+mut("x-c15-moved-conversion-range-check-ge", "C15", "src/protocol/varint/convert.rs",
+    """        if v > Self::MAX.into() {""",
+    """        if v >= Self::MAX.into() {""",
+    "O2/try_from_u32", "MAX itself rejected (the conversions live in a new submodule)", base="a5-r3")
+mut("x-c03-moved-skip-state-overshoots", "C03", "src/parser/request/skip.rs",
+    """        if let Some(new_payload_rem @ 1..) = payload.checked_sub(data.len()) {""",
+    """        if let Some(new_payload_rem @ 1..) = payload.checked_sub(data.len() + 1) {""",
+    "R3.11/SkipState::drive", "the skip arithmetic is off by one (SkipState lives in a new submodule)", base="a1-r1")
